@@ -133,7 +133,7 @@ def lit(c):
         if math.isnan(v): return '(0.0/0.0)'
         if math.isinf(v): return '(1.0/0.0)' if v > 0 else '((0-1.0)/0.0)'
         if v == 0 and math.copysign(1, v) < 0: return '(0.0*(0-1.0))'
-        q = Fraction(v); return f'({fmt_int(q.numerator)}.0/{q.denominator}.0)'
+        q = Fraction(v); return f'({q.numerator}.0/{q.denominator}.0)' if q >= 0 else f'((0-{-q.numerator}.0)/{q.denominator}.0)'
     return None
 
 def shape_ncmp(item, ob):
